@@ -285,8 +285,10 @@ def parse_tlc_out(path):
             if m:
                 depth = int(m.group(1))
     finished = False
-    with open(path, errors="replace") as f:
-        tail = f.read()[-3000:]
+    with open(path, "rb") as f:       # the last bytes only: an output with printed pairs can be hundreds of MB
+        f.seek(0, 2)
+        f.seek(max(0, f.tell() - 6000))
+        tail = f.read().decode("utf-8", errors="replace")
         finished = "Model checking completed" in tail or "Finished in" in tail
     return {"generated": generated, "distinct": distinct, "violated": violated, "error": error,
             "depth": depth, "finished": finished}
